@@ -13,18 +13,19 @@ EXTENDS ScalarField, TLC, FiniteSets
 VARIABLES mKind, mA, mB
 
 ZN == 0..(N - 1)
+Bug == IF "VERIF_BUG" \in DOMAIN IOEnv THEN IOEnv.VERIF_BUG ELSE "none"      \* a deliberately wrong design, selected by the orchestrator for non-vacuity runs
 
 (* reduceSaturated (scalar.go): src - n with borrow; select by the borrow *)
 ReduceSaturatedN(v) ==
   LET diff   == (v + TwoW) - N
       borrow == IF diff < TwoW THEN 1 ELSE 0
-  IN  IF borrow = 0 THEN <<diff % TwoW, 1>> ELSE <<v, 0>>
+  IN  IF borrow = 0 /\ ~(Bug = "reduce_strict" /\ diff % TwoW = 0) THEN <<diff % TwoW, 1>> ELSE <<v, 0>>    \* (bug: n itself not reduced)
 
 (* IsGreaterThanHalfN (scalar.go): diff = s - halfN with borrow; result = (borrow = 0) /\ (diff # 0) *)
 GtHalfAlg(s) ==
   LET diff   == (s + TwoW) - HalfN
       borrow == IF diff < TwoW THEN 1 ELSE 0
-  IN  borrow = 0 /\ (diff % TwoW) # 0
+  IN  borrow = 0 /\ (Bug = "gthalf_ge" \/ (diff % TwoW) # 0)              \* (bug: >= instead of >)
 
 (* Sum / Product as coded: fold into a fresh accumulator, then Set *)
 RECURSIVE FoldAdd(_, _), FoldMul(_, _)
